@@ -40,22 +40,28 @@ func init() {
 		if tier == "thorough" {
 			step = 1
 		}
-		for _, dir := range []string{"forward", "reverse"} {
-			for _, fc := range []bool{true, false} {
-				specs := c07Specs(fc)
-				for ti, sp := range specs {
-					for _, how := range []string{"cancel", "deadline"} {
-						off := (ti + int(seed)) % step
-						for k := off; k <= maxK; k += step {
-							cfg := WorldCfg{Dir: dir}
-							if !fc {
-								cfg.ClientNoFC, cfg.ServerNoFC = true, true
-							}
-							out = append(out, Case{Family: "cancel", Seed: rng.Int63(), Cfg: cfg, P: map[string]int{"k": k}, S: map[string]string{"target": sp.ID, "how": how}})
-							switch sp.ID {
-							case "ss3", "u2", "cs2", "done":
-								// the cancel races with delivery of the peer's pending frames (close, data, window updates)
-								out = append(out, Case{Family: "cancel", Seed: rng.Int63(), Cfg: cfg, P: map[string]int{"k": k, "race": 1}, S: map[string]string{"target": sp.ID, "how": "cancel"}})
+		reps := 1
+		if tier == "thorough" {
+			reps = 4
+		}
+		for r := 0; r < reps; r++ {
+			for _, dir := range []string{"forward", "reverse"} {
+				for _, fc := range []bool{true, false} {
+					specs := c07Specs(fc)
+					for ti, sp := range specs {
+						for _, how := range []string{"cancel", "deadline"} {
+							off := (ti + int(seed)) % step
+							for k := off; k <= maxK; k += step {
+								cfg := WorldCfg{Dir: dir}
+								if !fc {
+									cfg.ClientNoFC, cfg.ServerNoFC = true, true
+								}
+								out = append(out, Case{Family: "cancel", Seed: rng.Int63(), Cfg: cfg, P: map[string]int{"k": k}, S: map[string]string{"target": sp.ID, "how": how}})
+								switch sp.ID {
+								case "ss3", "u2", "cs2", "done":
+									// the cancel races with delivery of the peer's pending frames (close, data, window updates)
+									out = append(out, Case{Family: "cancel", Seed: rng.Int63(), Cfg: cfg, P: map[string]int{"k": k, "race": 1}, S: map[string]string{"target": sp.ID, "how": "cancel"}})
+								}
 							}
 						}
 					}
